@@ -473,6 +473,24 @@ class _FragmentCompiler:
     def __init__(self, state):
         self.state = state
 
+    def compile_async_reset(self, domain, lhs_masks):
+        reset_process = PyRTLProcess(is_comb=False)
+        self.state.add_signal_waker(domain.rst, edge_waker(reset_process, 1))
+
+        emitter = _PythonEmitter()
+        emitter.append(f"def run():")
+        with emitter.indent():
+            emitter.append("pass")
+            for (signal, _) in lhs_masks.masks():
+                if not signal.reset_less:
+                    signal_index = self.state.get_signal(signal)
+                    emitter.append(f"slots[{signal_index}].update({signal.init})")
+
+        exec_locals = {"slots": self.state.slots}
+        exec(compile(emitter.flush(), "<string>", "exec"), exec_locals)
+        reset_process.run = exec_locals["run"]
+        return reset_process
+
     def __call__(self, fragment):
         processes = set()
 
@@ -532,7 +550,10 @@ class _FragmentCompiler:
                 clk_polarity = 1 if domain.clk_edge == "pos" else 0
                 self.state.add_signal_waker(domain.clk, edge_waker(domain_process, clk_polarity))
                 if domain.async_reset and domain.rst is not None:
-                    self.state.add_signal_waker(domain.rst, edge_waker(domain_process, 1))
+                    # An asynchronous reset takes effect as soon as `rst` rises, without a clock edge.
+                    # This is done by a separate process, so that the clocked logic of the domain
+                    # (statements, reset-less registers, memory ports) only ever runs at clock edges.
+                    processes.add(self.compile_async_reset(domain, lhs_masks))
 
                 for (signal, _) in lhs_masks.masks():
                     signal_index = self.state.get_signal(signal)
